@@ -4,7 +4,7 @@ from core import World
 from gen import Gen, mode_line
 from suites import gen_history, emit_exec, exp_silent, exp_same_fs, run_suite
 
-LEAN_MODULES = ['GoSnaps.Props.C01']
+LEAN_MODULES = ['GoSnaps.Props.C01', 'GoSnaps.Props.C01World']
 REPLAY_MODES = [(False, ''), (False, 'true'), (True, ''), (False, 'clean'), (True, 'true')]
 
 
